@@ -111,6 +111,33 @@ def templates():
     add("existsSchema", "ddlTarget", "schema", (1,), "create schema s2", "create-schema")
     add("existsSchema", "ddlTarget", "schema", (2,), "create schema db1.s2", "create-schema")
     add("existsDatabase", "ddlTarget", "database", (1,), "create database db2", "create-database")
+    # metadata views through unknown databases / schemas, unknown views and columns of information_schema
+    for view in ("columns", "tables", "schemata", "views", "databases"):
+        x = f"nodb.information_schema.{view}"
+        add("unknownDatabase", "query", "table", (3,), f"select * from {x}", f"info-schema-{view}-from")
+        add("unknownDatabase", "query", "table", (3,), f"select 1 from {{T}} join {x} m on true", f"info-schema-{view}-join")
+        add("unknownDatabase", "query", "table", (3,), f"select * from (select * from {x} where 1 = 1)", f"info-schema-{view}-subquery")
+        add("unknownDatabase", "ddlSource", "table", (3,), f"create table {{N}} as select * from {x}", f"info-schema-{view}-ctas")
+        add("unknownDatabase", "dmlSource", "table", (3,), f"insert into {{T2}} select 1 from {x}", f"info-schema-{view}-insert-select")
+    add("unknownTable", "query", "table", (2,), "select * from information_schema.nope", "info-schema-unknown-view")
+    add("unknownTable", "query", "table", (3,), "select * from db1.information_schema.nope", "info-schema-unknown-view")
+    add("unknownSchema", "query", "table", (2,), "select * from nos.columns", "info-schema-like-name-in-missing-schema")
+    add("unknownSchema", "query", "table", (3,), "select * from db1.nos.columns", "info-schema-like-name-in-missing-schema")
+    add("unknownColumn", "query", "table", (2,), "select nocol from information_schema.columns", "info-schema-unknown-column")
+    add("unknownColumn", "query", "table", (3,), "select nocol from db1.information_schema.tables", "info-schema-unknown-column")
+    # the same failures through cursor.executemany (every row is a cursor.execute) ...
+    for cause, quals in TABLE_CAUSES.items():
+        add(cause, "dmlTarget", "table", quals, "insert into {X} values (%s, %s)", "executemany-insert")
+        if cause == "unknownTable":
+            add(cause, "dmlTarget", "table", quals, "delete from {X} where a = %s and b = %s", "executemany-delete")
+    add("unknownColumn", "dmlTarget", "table", (1, 2, 3), "insert into {T} (a, nocol) values (%s, %s)", "executemany-insert-columns")
+    add("unknownColumn", "dmlTarget", "table", (1, 2, 3), "update {T} set nocol = %s where a = %s", "executemany-update-set")
+    add("wrongValueCount", "dmlTarget", "table", (1, 2, 3), "insert into {T} values (%s, %s, 3)", "executemany-too-many")
+    # ... and through write_pandas (inserts through the DuckDB connection directly; run with database+schema)
+    add("unknownTable", "dmlTarget", "table", (1,), "write_pandas(conn, df[A], 'NOPE')", "write-pandas-missing-table")
+    add("unknownColumn", "dmlTarget", "table", (1,), "write_pandas(conn, df[NOCOL], 'T')", "write-pandas-missing-column")
+    add("unknownSchema", "dmlTarget", "table", (2,), "write_pandas(conn, df[A], 'T', schema='NOS')", "write-pandas-missing-schema")
+    add("unknownDatabase", "dmlTarget", "table", (3,), "write_pandas(conn, df[A], 'T', database='NODB', schema='S1')", "write-pandas-missing-database")
     # statements with nothing wrong but the session: they must be refused (90105 / 90106), not run against some default schema
     add("unknownTable", "ddlTarget", "table", (1,), "create table z9 (a int)", "would-succeed-create-table")
     add("unknownTable", "ddlTarget", "table", (1,), "create view zv9 as select 1 a", "would-succeed-create-view")
@@ -204,6 +231,12 @@ def scen_cases():
                 continue  # qualified names behave as in the database-only session (TF), already covered
             if st in ("DSQ", "DSI") and not t["variant"].startswith("would-succeed"):
                 continue  # the other spellings of the DROP: the statements that would otherwise succeed are enough
+            if t["variant"].startswith("executemany") and st not in ("TT", "TF", "FF"):
+                continue
+            if t["variant"].startswith("write-pandas") and st != "TT":
+                continue
+            if t["variant"].startswith("info-schema") and st != "TT":
+                continue  # the information_schema rewrites add unqualified helper tables: sessions without database/schema are C09's / C03's subject
             if t["pos"] in FINDING_POS and st != "TT":
                 continue
             if st in STATE_SETUP and (t["pos"] in FINDING_POS or not is_first_qual(tpls, t) or t["variant"] == "cte"):
@@ -213,7 +246,10 @@ def scen_cases():
             if t["variant"] == "use-schema" and st == "FF":
                 continue  # without a current database DuckDB is asked for 'missing_database.NOS': a Binder error (C03's subject)
             first_qual = is_first_qual(tpls, t)
-            for tx in ((False, True) if st == "TT" and first_qual else (False,)):
+            txs = (False, True) if st == "TT" and first_qual else (False,)
+            if st == "TT" and first_qual and (t["variant"].startswith(("executemany", "write-pandas")) or t["variant"].endswith(("columns-from", "tables-ctas", "columns-insert-select")) or t["variant"] in ("from", "insert", "too-few")):
+                txs = (False, True, "commit")     # True = the open transaction is rolled back at the end, "commit" = committed
+            for tx in txs:
                 cases.append({"kind": "scen", **{k: t[k] for k in ("cause", "pos", "refKind", "qual", "variant")}, "sql": render(t), "state": st, "tx": tx})
     return cases
 
@@ -261,8 +297,6 @@ def snapshot(conn, observer):
         "t2": _q(oc, "select * from db1.s1.t2 order by 1"),
         "side_tables": _q(oc, "select * from db1.information_schema._fs_tables_ext order by 1, 2, 3"),
         "side_columns": _q(oc, "select * from db1.information_schema._fs_columns_ext order by 1, 2, 3, 4"),
-        "comments": _q(oc, "select table_name, comment from db1.information_schema.tables where table_schema = 'S1' order by 1"),
-        "lengths": _q(oc, "select table_name, column_name, character_maximum_length from db1.information_schema.columns where table_schema = 'S1' and table_name = 'TV' order by 1, 2"),
     }
     return snap
 
@@ -291,12 +325,24 @@ def _real_scen(case, shared=None):
             cur.execute("insert into db1.s1.t values (7, 7)")
         observer = conn if case["state"] == "TT" else c0
         before = snapshot(conn, observer)
+        v = case.get("variant", "")
         try:
-            cur.execute(case["sql"])
+            if v.startswith("executemany"):
+                cur.executemany(case["sql"], [(1, 2), (3, 4)])
+            elif v.startswith("write-pandas"):
+                import pandas as pd
+                import snowflake.connector.pandas_tools as pt
+                kw = {"write-pandas-missing-table": ("NOPE", "A", {}), "write-pandas-missing-column": ("T", "NOCOL", {}),
+                      "write-pandas-missing-schema": ("T", "A", {"schema": "NOS"}), "write-pandas-missing-database": ("T", "A", {"database": "NODB", "schema": "S1"})}[v]
+                pt.write_pandas(conn, pd.DataFrame({kw[1]: [1]}), kw[0], **kw[2])
+            else:
+                cur.execute(case["sql"])
             outcome = "ok"
         except Exception as e:
             outcome = enc_exc(e)
-        res = {"outcome": outcome, "sqlstate": cur.sqlstate}
+        res = {"outcome": outcome, "sqlstate": (None if v.startswith("write-pandas") and outcome.startswith("P:") else cur.sqlstate)}
+        if v.startswith("write-pandas") and outcome.startswith("P:"):
+            res["sqlstate"] = outcome.split(":")[2]      # write_pandas has no cursor of the caller's: only the exception is judged
         if case["kind"] == "scenops":
             cur.execute("select * from db1.s1.t order by 1, 2")  # reads through the statement's own connection
             res["t_own"] = [list(r) for r in cur.fetchall()]
@@ -312,7 +358,14 @@ def _real_scen(case, shared=None):
             usable.append(cur.rowcount == 1)
             cur.execute("select count(*) from db1.s1.t")
             usable.append(cur.fetchall() == [(3 if case["tx"] else 2,)])
-            if case["tx"]:
+            if case["tx"] == "commit":
+                cur.execute("commit")
+                conn.cursor().execute("rollback")           # a no-op if the commit really ended the transaction
+                k2 = c0.cursor()
+                k2.execute("select * from db1.s1.t order by 1")
+                usable.append(k2.fetchall() == [(1, 2), (7, 7), (9, 9)])
+                k2.execute("delete from db1.s1.t where a in (7, 9)")
+            elif case["tx"]:
                 cur.execute("rollback")
                 cur.execute("select * from db1.s1.t")
                 usable.append(cur.fetchall() == [(1, 2)])
@@ -583,7 +636,8 @@ def _check_scen(chk, case, real, reply):
     chk.case(("scen", case["sql"], case["state"], case["tx"]), nontrivial=True)
     chk.count(f"state:{case['state']}{':tx' if case['tx'] else ''}")
     chk.count(f"outcome:{real['outcome']}")
-    where = f"`{case['sql']}` (session {case['state']}{', inside BEGIN' if case['tx'] else ''})"
+    where = (f"`{case['sql']}`" + (" through cursor.executemany with rows [(1, 2), (3, 4)]" if case.get("variant", "").startswith("executemany") else "")
+             + f" (session {case['state']}{', inside BEGIN after an uncommitted INSERT of (7, 7)' if case['tx'] else ''}{', later COMMITted' if case['tx'] == 'commit' else ''})")
     changed = "1" if real["changed"] else "0"
     want_state = spec_o.split(":")[2] if spec_o.startswith("P:") else None
     ok = real["outcome"] == spec_o and changed == spec_ch and real["sqlstate"] == want_state and all(u is True for u in real["usable"])
